@@ -41,6 +41,19 @@ const Prelude = PreludeVars + PreludeClasses + PreludeThenables
 // Printer options.
 type PrintOpts struct {
 	NoNative bool // print Native handlers as plain functions
+	Guard    bool // wrap every top-level statement that can throw in try { … } catch (e) { log("thrown", e); } (programs with a throwing "constructor" getter)
+}
+
+// canThrow: then/catch/finally read "constructor" (SpeciesConstructor), Promise.resolve does (PromiseResolve), and all of
+// them as well as a constructor assignment fail on a variable left unassigned by an earlier throwing statement.
+func canThrow(op *Op) bool {
+	switch op.K {
+	case OpThen, OpCatch, OpFinally, OpSetCtor:
+		return true
+	case OpStatic:
+		return op.St == StResolve
+	}
+	return false
 }
 
 type printer struct {
@@ -181,6 +194,14 @@ func (pr *printer) op(op *Op) string {
 		return fmt.Sprintf("%s(async function a%d() { %s})();", dst, op.ID, pr.body(op.ID, op.Body))
 	case OpLog:
 		return fmt.Sprintf("log(\"s%d\");", op.ID)
+	case OpSetCtor:
+		if op.Ctor.Getter && op.Ctor.Throws {
+			return fmt.Sprintf("Object.defineProperty(p%d, \"constructor\", {get: function() { log(\"gc%d\"); throw %d; }, configurable: true});", op.Src, op.Ctor.ID, op.Ctor.N)
+		}
+		if op.Ctor.Getter {
+			return fmt.Sprintf("Object.defineProperty(p%d, \"constructor\", {get: function() { log(\"gc%d\"); return %s; }, configurable: true});", op.Src, op.Ctor.ID, CtorValNames[op.Ctor.Val])
+		}
+		return fmt.Sprintf("p%d.constructor = %s;", op.Src, CtorValNames[op.Ctor.Val])
 	}
 	return ";"
 }
@@ -190,7 +211,11 @@ func PrintOps(ops []Op, opts PrintOpts) string {
 	pr := &printer{opts: opts}
 	var b strings.Builder
 	for i := range ops {
-		b.WriteString(pr.op(&ops[i]))
+		if opts.Guard && canThrow(&ops[i]) {
+			b.WriteString("try { " + pr.op(&ops[i]) + " } catch (e) { log(\"thrown\", e); }")
+		} else {
+			b.WriteString(pr.op(&ops[i]))
+		}
 		b.WriteString("\nprobe();\n")
 	}
 	return b.String()
@@ -198,3 +223,15 @@ func PrintOps(ops []Op, opts PrintOpts) string {
 
 // PrintSegment prints segment i of a program.
 func PrintSegment(p *Program, i int, opts PrintOpts) string { return PrintOps(p.Segs[i], opts) }
+
+// HasThrowingCtor reports whether some operation installs a throwing "constructor" getter (then statements are guarded).
+func (p *Program) HasThrowingCtor() bool {
+	for _, s := range p.Segs {
+		for i := range s {
+			if s[i].K == OpSetCtor && s[i].Ctor != nil && s[i].Ctor.Getter && s[i].Ctor.Throws {
+				return true
+			}
+		}
+	}
+	return false
+}
